@@ -33,6 +33,23 @@ MISSED_AT_FIRST = {
  "C12-4": "the signal mask is per thread, the interleaving family had one mask for the process; each coroutine now has its own mask (swapped with the context) which must be unchanged when its call has returned; the real-thread program checks the same; both families added to C12",
  "C13-4": "needs two threads with different shorthands; the real-thread program now gives its threads different valid options and lets some of them make requests that must be rejected; a data race or a wrong verdict in option parsing is attributed to C13, the threads family added to C13; a hang of that program is reported with what it printed before",
  "C16-4": "a sink that re-enters the library was not modelled; MC_Nest added (a sink that drains another child before it looks at its own chunk)",
+ # round 4 (a different site and a different way of manifesting than the four already collected for the property)
+ "C01-6": "a death with and without the core-dump flag is ONE model state, so TLC kept one history (without the flag); MC_Status now keeps the environment records of the history apart in its view",
+ "C02-6": "caught by C20's thread program only; cross-talk / races in read, write and drain are now attributed to C02 too and the threads family runs under C02",
+ "C03-5": "needs two threads inside start at once with different extra environments; each coroutine of the interleaving family now gives its child an environment entry of its own (children's environment and the caller's own compared), family added to C03",
+ "C03-6": "a fault that start SURVIVES was accepted whatever was launched; FaultTrace now requires program, arguments, environment and directory to be the requested ones (clause for C03 and C04), faults family added to C03",
+ "C04-6": "the caller itself ran the child branch: seen as a crash of the driver and attributed to C05/C14 only; a crash inside a call is now also attributed to that call's own property",
+ "C05-6": "the leak shows in the env family (deep working directory), which C05 did not run; added",
+ "C06-6": "getpgid was outside the seam (infrastructure error, no verdict); process-group calls are now part of it, every simulated child is the leader of its own group, kill(-pid) is flagged",
+ "C09-6": "the window between hang-up and reapability exists in the simulated kernel only for a child that closes its exit handle and lives on; that behaviour added to the poll family; a timed-out zero-timeout wait after hang-up is attributed to C09",
+ "C13-5": "0 meant 'no FILE given' in the model, so a FILE on descriptor 0 could not be written; F0 added (wiring and options families, simulated and real kernel)",
+ "C16-5": "needs a read that fills drain's whole 4 KiB buffer; MC_DrainBig added (8 KiB pipe, volumes 4095/4096/4097, pause or end, deadlines)",
+ "C16-6": "the driver made a fresh string for every drain; it now keeps the caller's string and shortens it in place between drains; MC_StrTwice (history-sensitive view) added; a violation signature is now confirmed through ANY of its instances (the first instance came from a family where it only showed as a leftover of an earlier script of the batch, was not repeated alone, and the whole group was dropped)",
+ "C17-5": "nonblocking mode of the parent's pipe ends was not observed in the launch families; pnb added (wiring family with nonblocking x shorthands, simulated and real kernel), wiring family under C17",
+ "C17-6": "pthread mutex calls were outside the seam (infrastructure error); allowed through; the deadlock shows as a hang of the reader||writer round of the thread program, attributed to C17, threads family under C17",
+ "C18-5": "needs threads; the Windows string driver got a threaded mode under ThreadSanitizer (four threads, different command lines, each result compared with the single-threaded one)",
+ "C20-5": "caught by C02/C11/C14 (descriptors of the fork-mode child) but C20's families had no fork mode; scenario 4 of the interleaving family: the second thread starts a fork-mode child",
+ "C20-6": "the shared-child round of the thread program read with reproc_read only; a second round reads with reproc_drain while the writer pauses",
 }
 
 
